@@ -356,7 +356,7 @@ def _explore_orders(acc, base_case, tier, judge_fn, order_set=None):
         if base_case['fn'] == 'obtain_counts' else n >= 2
     first = judge_fn(case, got, err)
     label = 'exception' if err is not None else ('violation' if first else 'ok')
-    _report(acc, case, first, sch.executed, False, f'jobs={n},order=submission,{label}')
+    _report(acc, case, first, sch.executed, False, f'{_site_name(case)},jobs={n},order=submission,{label}')
     acc.count('job_bodies_executed', sch.executed)
     if n == 0:
         return n, got
@@ -373,7 +373,7 @@ def _explore_orders(acc, base_case, tier, judge_fn, order_set=None):
         if not v and err is None and e is None and g != got:
             v = [(f'{_site_name(case)}:depends-on-schedule', {'submission_order': got[:6], 'this_order': g[:6]})]
         label = 'exception' if e is not None else ('violation' if v else 'ok')
-        _report(acc, case, v, s.executed, split, f'jobs={n},order={_order_kind(order, n)},{label}')
+        _report(acc, case, v, s.executed, split, f'{_site_name(case)},jobs={n},order={_order_kind(order, n)},{label}')
         acc.count('job_bodies_executed', s.executed)
     return n, got
 
